@@ -38,7 +38,8 @@ def compare(res, spec, vals, keys, algebraic=(), tags=(), scale_hints=None,
             by_class=True, alg_tol=1e-11):
     """vals = [(exact dict, code dict)] for the coarse and fine grid."""
     p, n1 = spec['order'], spec['n1']
-    _, windows = grid_plan(spec)
+    grids_, windows = grid_plan(spec)
+    abs_floor = conv.roundoff_floor(np.min(grids_[1]['d']))
     scale_hints = scale_hints or {}
     (ex1, c1), (ex2, c2) = vals
     tags = list(tags)
@@ -72,7 +73,7 @@ def compare(res, spec, vals, keys, algebraic=(), tags=(), scale_hints=None,
             rows = conv.compare_pair(c1[k], ex1[k], c2[k], ex2[k], (n1,) * 3,
                                      (marg,) * 3, p,
                                      scale_hint=scale_hints.get(k, 0.0),
-                                     by_class=by_class, lose=lose)
+                                     by_class=by_class, lose=lose, abs_floor=abs_floor)
             for lab, v, info, e1, e2, sc in rows:
                 res['observations'] += 1
                 if v == "violated":
